@@ -104,10 +104,12 @@ def c05_1(cx):
 def c05_2(cx):
     """for_each_evicted: returns immediately if capacity is None; loop continues only while set.len() > cap; each iteration pops the FRONT and passes the id to cb; set_capacity(0) (None) clears the set."""
     b = cx.fn(LRUT + r"for_each_evicted$")
-    pops = cx.sites(b.calls(r"^hashlink::LinkedHashSet::<T, S>::pop_front$"), 1, "pop_front in for_each_evicted")
-    cx.check(not b.calls(r"LinkedHashSet::<T, S>::pop_back$"), "never pops the back (most recently used)", pops[0], key="no-pop-back")
-    ln = r"hashlink::LinkedHashSet::<T, S>::len\("
-    capv = r"NonZero::<usize>::get\(\$1\.capacity@Some\.0\)$|get\(.*capacity"
+    allpops = cx.sites(b.calls(r"^hashlink::LinkedHashSet::<T, S>::pop_(front|back)$"), 1, "pop in for_each_evicted")
+    back = [p for p in allpops if b.callee(p).endswith("pop_back")]
+    cx.check(not back, "evicts from the front (least recently used), never pops the back", (back or allpops)[0], key="no-pop-back")
+    pops = [p for p in allpops if p not in back] or allpops
+    ln = r"^hashlink::LinkedHashSet::<T, S>::len\(parking_lot::lock_api::Mutex::<R, T>::get_mut\(\$1\.set\)\)$"
+    capv = r"^std::num::NonZero::<(T|usize)>::get\(\$1\.capacity@Some\.0\)$"
     for p in pops:
         cx.only_if(b, p, Cmp(ln, ">", capv, desc="set.len() > capacity"), "an entry is evicted only while len > capacity (precision: at most the excess is evicted)")
         cx.only_if(b, p, VariantIn(r"^\$1\.capacity$", {"Some"}), "eviction only with a capacity set")
